@@ -69,6 +69,7 @@ Fixpoint own_check (K : ctx) (i : instr) (G : ost) {struct i} : option (option o
                 | Some (Some S1) => own_check K b S1
                 | r => r
                 end
+  | IUse p => if mem (root p) (o_own G) then Some (Some G) else None    (* no read of a place whose owner is gone *)
   | INew d n => if writable d G then Some (Some (give d G)) else None
   | ICopy d p => if writable d G && mem (root p) (o_own G) then Some (Some (give d G)) else None
   | IMove d s => if writable d G && mem s (o_own G) && negb (Nat.eqb d s) then Some (Some (give d (take s G))) else None
